@@ -836,7 +836,7 @@ def selftest():
 def run(ctx):
     selftest()
     nA = ctx.share(ctx.scale(10, 160))
-    nB = ctx.share(ctx.scale(240, 6000))
+    nB = ctx.share(ctx.scale(240, 3000))
     explore(ctx, "synthetic", synthetic_case(ctx.scale(5, 6)), evaluate, nB, shrink_calls=ctx.scale(12, 200))
     explore(ctx, "pipeline", pipeline_case(ctx.scale(6, 10)), evaluate, nA, shrink_calls=ctx.scale(2, 8))
 
